@@ -3,8 +3,11 @@
 Correspondence: `_sample_boundary_regular`, `load_stokes_entries`, `_newton_cotes_4th`,
 `stokes_integration`, `_coincidence_check`, the branch of `universal_form_factor` on random
 pairs of convex planar patches; `patch2patch_ff_universal` + the i<j rule of
-`_form_factors_with_directivity_dim` on baked shoebox rooms.  The Nusselt integrator is not
-modelled: its outputs are handed to the model as data.
+`_form_factors_with_directivity_dim` on baked shoebox rooms.  The Nusselt integrator
+(`nusselt_integration`, `nusselt_analog`, `_surf_sample_regulargrid`, `_area_under_curve`,
+`_poly_estimation_Lagrange`, `_poly_integration`) is modelled in coq/theories/Model/Nusselt.v and
+compared with /repo by the family `nusselt_model` (touching patch pairs) and, for baked rooms, through
+`patch2patch_ff_full` (both branches computed by the model).
 
 Property statement on the implementation: bounds, exact zeros for invisible pairs, reciprocity of
 the full matrix, row sums of closed rooms, invariance under translation / rotation / uniform
@@ -38,8 +41,27 @@ NOT_CARRIED = [
     "accuracy statement about Boole's rule applied to ln r) -- measured on every baked room",
     "C05_partial: row sums of a closed room within 2.5 % of 1 (quadrature accuracy, see C06) -- measured on "
     "every baked room",
-    "C05_partial: everything about the Nusselt branch (bounds, reciprocity of the two-sided kernel, invariance): "
-    "nusselt_integration is not modelled, its outputs are data of the assembly model",
+    "C05_partial, Nusselt branch: nusselt_integration / nusselt_analog / _surf_sample_regulargrid ARE modelled "
+    "(coq/theories/Model/Nusselt.v, tied to /repo by the family nusselt_model at rel 1e-9 + abs 1e-12, and through "
+    "patch2patch_ff_full on every baked room) and the following is PROVED for the model "
+    "(coq/theories/Proofs/NusseltProofs.v): invariance under a common translation of both patches, also of "
+    "universal_form_factor with both branches (C05_nusselt_translation, C05_universal_full_translation: commutative "
+    "ring); invariance under uniform scaling by s > 0 (C05_nusselt_scaling: ordered field + SqrtLaws; for "
+    "nusselt_integration the two sampled sides el[1]-el[0], el[-1]-el[0] must have non-zero length); the sample grid "
+    "of a non-triangular patch has npointsx*npointsz points, the cell centres el[0] + (2i+1)/(2 npointsx) u + "
+    "(2j+1)/(2 npointsz) v, strictly inside the parallelogram (C05_nusselt_grid_rectangle: ordered field + FloorLaws); "
+    "the assembly with both branches computed holds exact zeros for unlisted pairs, the Nusselt value exactly on "
+    "touching listed pairs, and keeps the zero / area-ratio reciprocity statements of the i<j rule "
+    "(C05_full_assembly_entries, C05_full_assembly).  NOT proved for the Nusselt branch: every accuracy statement "
+    "(that the value approximates the form-factor integral: the quadratic-arc area and the regular-grid quadrature "
+    "are not analysed), 0 <= F <= 1, area_i*F_ij = area_j*F_ji of the two-sided kernel (it is not symmetric by "
+    "construction: one patch is sampled, the other projected; measured as *kernel_two_sided*), rotation invariance "
+    "(_rotation_matrix has special cases decided by exact float equality and the in-plane frame changes with the "
+    "normal; only exercised by the similarity test at rel 1e-6), scaling invariance of universal_form_factor as a "
+    "whole (the 1e-6 m coincidence threshold is absolute), continuity across the three 1e-6 decision thresholds and "
+    "across the rounding of the grid counts, the triangle branch of the sample grid; np.linalg.inv of the 3x3 "
+    "Vandermonde matrix is modelled by the Lagrange closed form and x**k by the k-fold product (compared numerically, "
+    "not proved equal to LAPACK / libm)",
     "C05_similarity is now PROVED for the Stokes branch (coq/theories/Proofs/StokesSimilarity.v): with cut-off 0 (the "
     "code as repaired in /repo by cfd1b2b; before that the 1e-3 m cut-off made it false, former finding "
     "similarity_cutoff) stokes_integration 0 = stokes_nocut for all patches (C05_similarity_cut0); stokes_nocut is "
@@ -349,6 +371,290 @@ def canonical_case(spec):
 
 
 # --------------------------------------------------------------------------
+# Nusselt branch: the extracted model (Model/Nusselt.v) against /repo
+# --------------------------------------------------------------------------
+T_SEG = 1e-6        # literal in nusselt_analog: norm(cross(..)) > 1e-6
+T_DOT = 1e-6        # literal in nusselt_analog: dot(..) >= 1e-6
+T_LAG = 1e-6        # literal in _poly_estimation_Lagrange: abs(x[-1]-x[0]) < 1e-6
+NUS_RTOL = 1e-9
+NUS_ATOL = 1e-12
+NEAR = 1e-9         # distance to a decision threshold / to a rounding tie below which a case is re-drawn
+NUS_KINDS = ["shoebox", "shoebox_offset", "shoebox_lattice", "inclined", "shoebox_corner", "rotated", "shoebox",
+             "triangle", "shoebox_thin", "rotated"]
+
+
+def cmp_close(impl, model, what, rtol=NUS_RTOL, atol=NUS_ATOL):
+    """None if |impl-model| <= rtol*max(|impl|,|model|) + atol everywhere, else a description; also returns the
+    largest deviation relative to max(|impl|,|model|, atol/rtol)"""
+    a = np.asarray(impl, dtype=float)
+    b = np.asarray(model, dtype=float)
+    if a.shape != b.shape:
+        return "%s: shape %s (impl) vs %s (model)" % (what, a.shape, b.shape), np.inf
+    if a.size == 0:
+        return None, 0.0
+    bad = ~(np.isfinite(a) & np.isfinite(b))
+    with np.errstate(invalid="ignore"):
+        dev = np.abs(a - b)
+        bad |= dev > rtol * np.maximum(np.abs(a), np.abs(b)) + atol
+        rel = float(np.nanmax(dev / np.maximum(np.maximum(np.abs(a), np.abs(b)), atol / rtol)))
+    if bad.any():
+        idx = np.unravel_index(int(np.argmax(bad)), a.shape)
+        return "%s: at %s impl=%r model=%r (%d of %d entries differ)" % (
+            what, tuple(int(x) for x in idx), float(a[idx]), float(b[idx]), int(bad.sum()), a.size), rel
+    return None, rel
+
+
+def signed_perm(rng):
+    """one of the 48 signed axis permutations"""
+    P = np.zeros((3, 3))
+    p = rng.permutation(3)
+    for i in range(3):
+        P[i, p[i]] = rng.choice([-1.0, 1.0])
+    return P
+
+
+def reorder(rng, p):
+    """random starting vertex and orientation of a polygon"""
+    p = np.roll(p, int(rng.integers(0, len(p))), axis=0)
+    if rng.random() < 0.3:
+        p = p[::-1].copy()
+    return p
+
+
+def draw_touching(rng, kind):
+    """two touching patches as they occur in rooms (+ inclined / rotated / triangular variants);
+    returns patch_i, patch_j, unit normals (pointing into the common half spaces)"""
+    big = 10 ** rng.uniform(-0.5, 2.0)                       # longest side, 0.3 .. 100 m
+    lo = -1.7 if kind == "shoebox_thin" else -0.8
+    a, b, c = np.maximum(big * 10 ** rng.uniform(lo, 0.0, 3), 0.1)   # sides 0.1 .. 100 m
+    if kind == "shoebox_lattice":                            # sides are multiples of a common patch size
+        q = 10 ** rng.uniform(-1.0, 0.8)
+        a, b, c = q * rng.integers(1, 17, 3)
+    elif rng.random() < 0.25:
+        b = a                                                # square source patch (exact integer grid counts)
+    phi = np.pi / 2
+    if kind == "inclined" or (kind in ("rotated", "triangle") and rng.random() < 0.5):
+        phi = rng.uniform(np.pi / 6, 5 * np.pi / 6)
+    cph, sph = (0.0, 1.0) if phi == np.pi / 2 else (np.cos(phi), np.sin(phi))
+    x0, x1 = 0.0, a
+    if kind == "shoebox_offset":                             # the receiver overlaps a part of the common edge
+        x1 = a * rng.uniform(0.2, 3.0)
+    elif kind == "shoebox_corner":                           # only one common vertex
+        x0, x1 = a, a + big * 10 ** rng.uniform(-0.8, 0.0)
+    pi = np.array([[0, 0, 0], [a, 0, 0], [a, b, 0], [0, b, 0]], dtype=float)
+    pj = np.array([[x0, 0, 0], [x0, c * cph, c * sph], [x1, c * cph, c * sph], [x1, 0, 0]], dtype=float)
+    if kind == "triangle":
+        which = int(rng.integers(0, 3))
+        if which != 1:
+            pi = pi[[0, 1, 3]]
+        if which != 0:
+            pj = pj[[0, 1, 3]]
+    ni = np.array([0.0, 0.0, 1.0])
+    nj = np.array([0.0, sph, -cph])
+    pi, pj = reorder(rng, pi), reorder(rng, pj)
+    R = rand_rot(rng) if kind == "rotated" else signed_perm(rng)
+    t = rng.uniform(-1, 1, 3) * 10 ** rng.uniform(-1, 2)
+    return pi @ R.T + t, pj @ R.T + t, R @ ni, R @ nj
+
+
+def round_tie_margin(el, npoints):
+    """distance of the two arguments of int(round(..)) in _surf_sample_regulargrid to a half-integer"""
+    u, v = el[1] - el[0], el[-1] - el[0]
+    a = 2 if len(el) == 3 else 1
+    r1 = np.linalg.norm(u) / np.linalg.norm(v) * np.sqrt(a * npoints)
+    r2 = np.linalg.norm(v) / np.linalg.norm(u) * np.sqrt(a * npoints)
+    return min(abs((r - np.floor(r)) - 0.5) for r in (r1, r2))
+
+
+def analog_margins(p0, ni, pj, nj):
+    """decision quantities of nusselt_analog, computed with /repo's own helpers: smallest distance of a threshold
+    comparison to its threshold, whether an input of np.sign / a normalisation / the exact comparisons of
+    _rotation_matrix is degenerate, and the branch taken per boundary segment"""
+    bp, conn = I._sample_boundary_regular(pj, npoints=3)
+    e1, e2 = pj[1] - pj[0], pj[2] - pj[1]
+    hand_rel = abs(float(np.dot(np.cross(e1, e2), nj))) / (np.linalg.norm(e1) * np.linalg.norm(e2) * np.linalg.norm(nj))
+    d = bp - p0
+    nrm = np.linalg.norm(d, axis=1)
+    sph = d / nrm[:, None]
+    rot = G._rotation_matrix(n_in=ni)
+    pln = np.array([G._matrix_vector_product(matrix=rot, vector=w)[:-1] for w in sph])
+    c = float(ni[2] / np.linalg.norm(ni))
+    # _rotation_matrix decides by exact equality with +-1: a generic normal must stay away from the poles
+    degenerate = hand_rel < 1e-6 or float(nrm.min()) < 1e-6 * float(nrm.max()) or (abs(c) != 1.0 and 1.0 - abs(c) < NEAR)
+    m = np.inf
+    branches = []
+    for seg in conn:
+        P0, P2 = pln[seg[0]], pln[seg[-1]]
+        cr = abs(P2[0] * P0[1] - P2[1] * P0[0])
+        m = min(m, abs(cr - T_SEG))
+        if cr > T_SEG:
+            dt = float(np.dot(P2, P0))
+            m = min(m, abs(dt - T_DOT))
+            branches.append("lt90" if dt >= T_DOT else "gt90")
+        else:
+            branches.append("skipped")
+    return m, degenerate, branches
+
+
+class _Recorder:
+    """wraps /repo's _area_under_curve while nusselt_analog runs: smallest distance of a chord length
+    |ps[-1]-ps[0]| to the threshold of _poly_estimation_Lagrange, and whether an area that is not exactly 0 by
+    that threshold is too small for its sign (the code takes np.sign of one of them) to be decided"""
+
+    def __init__(self):
+        self.min_chord = np.inf
+        self.sign_undecided = False
+        self.calls = 0
+        self.orig = I._area_under_curve
+
+    def __enter__(self):
+        def wrapped(ps, order=2):
+            out = self.orig(ps, order=order)
+            chord = float(np.linalg.norm(ps[-1] - ps[0]))
+            self.calls += 1
+            self.min_chord = min(self.min_chord, abs(chord - T_LAG))
+            if chord > T_LAG and abs(float(out)) < 1e-9 * chord * chord:
+                self.sign_undecided = True
+            return out
+        I._area_under_curve = wrapped
+        return self
+
+    def __exit__(self, *a):
+        I._area_under_curve = self.orig
+
+
+def nusselt_near_decision(pi, pj, ni, nj, nsamples=64):
+    """reason why (pi, pj) is a near-decision input of nusselt_integration, or None; also returns the analog values
+    of /repo per sample point, the sample points and the branch per boundary segment"""
+    if round_tie_margin(pi, nsamples) < NEAR:
+        return "round_tie", None, None, []
+    grid = I._surf_sample_regulargrid(pi, nsamples)
+    margin, branches, degenerate = np.inf, [], False
+    with _Recorder() as rec:
+        an_i = np.array([float(I.nusselt_analog(p, ni, pj, nj)) for p in grid])
+    for p in grid:
+        m, dg, br = analog_margins(p, ni, pj, nj)
+        margin = min(margin, m)
+        degenerate = degenerate or dg
+        branches += br
+    if (margin < NEAR or degenerate or rec.min_chord < NEAR or rec.sign_undecided
+            or abs(min_vertex_dist(pi, pj) - THRES) < NEAR or not np.all(np.isfinite(an_i))):
+        return "threshold", an_i, grid, branches
+    return None, an_i, grid, branches
+
+
+def nusselt_case(spec):
+    out = {"evaluations": 1, "mismatches": [], "prop_failures": [], "dist": {}, "nontrivial": []}
+    kind = spec["kind"]
+    tag = dict(nusselt=True, kind=kind, seed=spec["seed"], idx=spec["idx"])
+    nsamples = 64
+    # ---- draw (re-draw near-decision inputs; every draw derives from the case seed and index)
+    for attempt in range(20):
+        rng = np.random.default_rng([spec["seed"], 9000 + spec["idx"], attempt])
+        pi, pj, ni, nj = draw_touching(rng, kind)
+        nsamples = 64 if rng.random() < 0.7 else int(rng.choice([1, 2, 5, 16, 30, 100]))
+        if len(pi) == 3 and nsamples == 1:
+            # /repo's _surf_sample_regulargrid returns no point at all (IndexError on ptlist[0]) for a triangle with
+            # npoints=1 and side ratio in about (0.57, 1.76); universal_form_factor always passes nsamples=64
+            nsamples = 2
+        why, an_i, grid, branches = nusselt_near_decision(pi, pj, ni, nj, nsamples)
+        if why is not None:
+            out["dist"]["nus_redrawn_" + why] = out["dist"].get("nus_redrawn_" + why, 0) + 1
+            out["rejected"] = out.get("rejected", 0) + 1
+            continue
+        break
+    else:
+        out["dist"]["nus_no_admissible_draw"] = 1
+        return out
+    tag["attempt"] = attempt
+    ai, _ = area_normal(pi)
+    out["dist"]["nus_kind_" + kind] = 1
+    out["dist"]["nus_verts_%d_%d" % (len(pi), len(pj))] = 1
+    out["dist"]["nus_nsamples_%d" % nsamples] = 1
+    out["dist"]["nus_sample_points"] = len(grid)
+    for b in ("skipped", "lt90", "gt90"):
+        out["dist"]["nus_segments_" + b] = branches.count(b)
+    out["dist"]["nus_longest_side_1e%+d" % int(np.floor(np.log10(max(sides(pi).max(), sides(pj).max()))))] = 1
+
+    # ---- unit inputs for the small kernels
+    x3 = np.sort(rng.uniform(-2, 2, 3))
+    x3[1] = x3[0] + (x3[2] - x3[0]) * rng.uniform(0.2, 0.8)
+    y3 = rng.normal(size=3)
+    ang = np.sort(rng.uniform(0, np.pi / 2, 3)) + rng.uniform(0, 2 * np.pi)
+    arc = np.stack([np.cos(ang), np.sin(ang)], axis=1) * rng.uniform(0.1, 1.0) + rng.uniform(-1, 1, 2)
+    rx = np.concatenate([np.arange(0, 12) + 0.5, rng.uniform(0, 200, 6), rng.integers(0, 50, 3).astype(float),
+                         [0.0, 0.49999999999999994, 0.5000000000000001, 2.4999999999999996, 2.5000000000000004]])
+
+    # ---- the implementation
+    in_i = float(I.nusselt_integration(patch_i=pi, patch_j=pj, patch_i_normal=ni, patch_j_normal=nj,
+                                       nsamples=nsamples))
+    in64_i = in_i if nsamples == 64 else float(I.nusselt_integration(
+        patch_i=pi, patch_j=pj, patch_i_normal=ni, patch_j_normal=nj, nsamples=64))
+    f_i = uff(pi, ni, ai, pj, nj)
+    coinc = bool(G._coincidence_check(pj, pi))
+    co_i = I._poly_estimation_Lagrange(x3, y3)
+    pint_i = float(I._poly_integration(co_i, x3))
+    auc_i = float(I._area_under_curve(arc, order=2))
+    round_i = [int(round(np.float64(x))) for x in rx]
+
+    # ---- the model
+    tok = Tok()
+    tok.cmd("nus_grid").vecs(pi).i(nsamples)
+    tok.cmd("nus_analog").f(T_SEG).f(T_DOT).f(T_LAG).vec(ni).vecs(pj).vec(nj).vecs(grid)
+    tok.cmd("nus_integration").f(T_SEG).f(T_DOT).f(T_LAG).vecs(pi).vecs(pj).vec(ni).vec(nj).i(nsamples)
+    tok.cmd("nus_uff").f(THRES).f(CUT).f(T_SEG).f(T_DOT).f(T_LAG).vecs(pi).vec(ni).f(ai).vecs(pj).vec(nj)
+    tok.cmd("nus_lagrange").f(T_LAG).vec(x3).vec(y3)
+    tok.cmd("nus_auc").f(T_LAG).vec(arc.reshape(-1))
+    tok.cmd("nus_round").arr(rx)
+    res = dict(run_driver(tok))
+    grid_m = floats(res["nus_grid"], (-1, 3))
+    lag_m = floats(res["nus_lagrange"])
+    cscale = float(np.abs(co_i).max())
+    checks = [
+        ("_surf_sample_regulargrid", grid, grid_m, NUS_ATOL * max(1.0, float(np.abs(grid).max()))),
+        ("nusselt_analog (per sample point)", an_i, floats(res["nus_analog"]), NUS_ATOL),
+        ("nusselt_integration", [in_i], floats(res["nus_integration"]), NUS_ATOL),
+        ("_poly_estimation_Lagrange", co_i, lag_m[:3], NUS_RTOL * cscale),
+        ("_poly_integration", [pint_i], lag_m[3:], NUS_RTOL * cscale),
+        ("_area_under_curve", [auc_i], floats(res["nus_auc"]), NUS_ATOL),
+    ]
+    if coinc:
+        checks.append(("universal_form_factor (Nusselt branch)", [f_i], floats(res["nus_uff"]), NUS_ATOL))
+        if f_i != in64_i:
+            out["mismatches"].append(dict(stage="universal_form_factor.branch", case=tag,
+                                          what="touching pair: universal_form_factor = %r but nusselt_integration("
+                                               "nsamples=64) = %r" % (f_i, in64_i)))
+    worst = 0.0
+    for name, a, b, atol in checks:
+        m, rel = cmp_close(a, b, name, atol=atol)
+        if m:
+            out["mismatches"].append(dict(stage=name, what=m, case=tag, patch_i=pi.tolist(), patch_j=pj.tolist(),
+                                          normal_i=ni.tolist(), normal_j=nj.tolist(), nsamples=nsamples))
+        else:
+            worst = max(worst, rel)
+    m = cmp_exact(round_i, ints(res["nus_round"]), "round (half to even)")
+    if m:
+        out["mismatches"].append(dict(stage="round", what=m, case=tag, values=rx.tolist()))
+    nxz = ints(res["nus_grid_n"])
+    if len(pi) == 4 and int(nxz[0] * nxz[1]) != len(grid):
+        out["mismatches"].append(dict(stage="_surf_sample_regulargrid.count", case=tag,
+                                      what="model npointsx*npointsz = %d*%d, implementation returns %d points"
+                                           % (nxz[0], nxz[1], len(grid))))
+    out["dist"]["nus_dev_rel_1e%+03d" % int(np.ceil(np.log10(max(worst, 1e-17))))] = 1
+    out["nus_max_rel"] = worst
+    out["traces"] = 1
+    out["dist"]["nus_branch_" + ("nusselt" if coinc else "stokes")] = 1
+    # ---- property statement on the implementation (bounds; report-only accuracy figures)
+    if not (0.0 <= in_i <= 1.0):
+        out["prop_failures"].append(dict(test="bounds_nusselt", f=in_i, patch_i=pi.tolist(), patch_j=pj.tolist(),
+                                         case=tag, what="nusselt_integration = %r outside [0,1]" % in_i))
+    out["sample"] = dict(tag, patch_i=pi.tolist(), patch_j=pj.tolist(), nsamples=nsamples, F=in_i)
+    if in_i > 1e-9:
+        out["nontrivial"].append(case_hash(tag))
+    return out
+
+
+# --------------------------------------------------------------------------
 # room cases
 # --------------------------------------------------------------------------
 def impl_full_ff(radi):
@@ -386,7 +692,13 @@ def room_case(spec):
     for (a, b) in pairs:
         tok.i(a).i(b)
     tok.arr(F)
+    normals = radi.patches_normal
+    tok.cmd("nus_p2p").f(THRES).f(CUT).f(T_SEG).f(T_DOT).f(T_LAG).vecs2(pts).vecs(normals).arr(A)
+    tok.i(len(pairs))
+    for (a, b) in pairs:
+        tok.i(a).i(b)
     res = run_driver(tok)
+    Fall_m = floats(res[3][1], (n, n))
     Fm = floats(res[0][1], (n, n))
     Ffull_m = floats(res[1][1], (n, n))
     br_m = ints(res[2][1])
@@ -406,6 +718,22 @@ def room_case(spec):
             mu = max(mu, ulp_dist(a, b))
     out["max_ulp"] = mu
     out["traces"] = 1
+    # both branches computed by the model (patch2patch_ff_full): no value is copied from the implementation
+    bad = ~(np.abs(F - Fall_m) <= NUS_RTOL * np.maximum(np.abs(F), np.abs(Fall_m)) + NUS_ATOL)
+    for (a, b) in np.argwhere(bad):
+        a, b = int(a), int(b)
+        why = None
+        if G._coincidence_check(pts[b], pts[a]):
+            why = nusselt_near_decision(pts[a], pts[b], normals[a], normals[b])[0]
+        if why is not None:
+            out["dist"]["room_nusselt_entry_near_decision_" + why] = out["dist"].get(
+                "room_nusselt_entry_near_decision_" + why, 0) + 1
+            out["rejected"] = out.get("rejected", 0) + 1
+        else:
+            out["mismatches"].append(dict(stage="patch2patch_ff_universal vs patch2patch_ff_full", case=tag, i=a, j=b,
+                                          what="form_factors[%d,%d]: impl=%r model=%r" % (a, b, float(F[a, b]),
+                                                                                       float(Fall_m[a, b]))))
+    out["dist"]["room_full_model_entries"] = int(len(pairs))
 
     # ---- property statement on the implementation
     def fail(test, what, **kw):
@@ -444,7 +772,6 @@ def room_case(spec):
     else:
         out["dist"]["closure_skipped_aspect"] = 1
     # two-sided kernel on a few visible pairs (accuracy: report only)
-    normals = radi.patches_normal
     pick = rng.permutation(len(pairs))[:6]
     worst2 = 0.0
     for k in pick:
@@ -468,33 +795,53 @@ def run(res):
     maxp = 22 if quick else 40
     rooms = [dict(seed=res.seed, idx=i, max_patches=maxp) for i in range(n_rooms)]
     pairs = [dict(seed=res.seed, idx=i, kind=KINDS[i % len(KINDS)]) for i in range(n_pairs)]
-    jobs = [("room", s) for s in rooms] + [("canon", dict(seed=res.seed))] + [("pair", s) for s in pairs]
+    n_nus = 40 if quick else 600
+    nus = [dict(seed=res.seed, idx=i, kind=NUS_KINDS[i % len(NUS_KINDS)]) for i in range(n_nus)]
+    jobs = ([("room", s) for s in rooms] + [("canon", dict(seed=res.seed))] + [("pair", s) for s in pairs]
+            + [("nusselt", s) for s in nus])
+    nus_max = 0.0
     for r in fw.run_parallel(dispatch, jobs):
+        nus_max = max(nus_max, r.get("nus_max_rel", 0.0))
         res.absorb(r)
+    res.notes.append("nusselt_model: %d touching pairs; largest deviation between the extracted model and /repo over "
+                     "_surf_sample_regulargrid, nusselt_analog (every sample point), nusselt_integration, "
+                     "universal_form_factor, _area_under_curve, _poly_estimation_Lagrange, _poly_integration, relative "
+                     "to max(|value|, 1e-3): %.3g (tolerance rel 1e-9 + abs 1e-12)" % (n_nus, nus_max))
     res.rule = ("random pairs of convex planar triangles/quads (sides 0.2-4 m, centre distance 1.1-3 x the sum of the "
                 "radii): 1/2 arbitrary orientation, 1/6 axis-parallel rectangles, 1/6 rectangles tilted by 1e-5..6e-4 rad "
                 "(segment extents inside the 1e-3 cut-off), 1/6 touching rectangles (Nusselt branch); each pair is "
                 "translated (<= 50 m), rotated (random orthogonal matrix), scaled (sides kept in [0.1 m, 1 km]) and all "
                 "three; + shoebox rooms (sides 1-6 m, 6-%d patches, patch aspect < 2) baked by /repo; + one fixed pair; "
-                "non-trivial = F > 1e-9 resp. a room with Stokes-branch entries; distinct by input hash" % maxp)
+                "non-trivial = F > 1e-9 resp. a room with Stokes-branch entries; distinct by input hash; "
+                "+ family nusselt_model: touching pairs (rectangles sharing an edge at right angles as in shoebox rooms, "
+                "sharing a part of an edge, sharing one vertex, inclined by 30-150 degrees, thin (aspect up to 50), "
+                "triangles; sides 0.1-100 m, the 48 axis orientations or a random orthogonal matrix, random vertex "
+                "order / orientation, translations up to 100 m, nsamples 64 (70 %%) or 1..100)" % maxp)
     res.not_carried = NOT_CARRIED
     res.assumptions = [
-        "nusselt_integration is not modelled: on the Nusselt branch the assembly model copies the implementation's "
-        "value (only the branch decision and the placement of the value are checked there)",
-        "the 1e-3 cut-off and the 1e-6 coincidence threshold are inputs of the model; the harness passes the "
-        "literals of /repo and rejects inputs within 1e-9 of either threshold",
+        "Nusselt branch: the model replaces np.linalg.inv of the 3x3 Vandermonde matrix by the Lagrange closed form "
+        "and x**k by the k-fold product; compared with /repo at rel 1e-9 + abs 1e-12 (family nusselt_model, and "
+        "patch2patch_ff_full on every baked room)",
+        "the Stokes cut-off, the 1e-6 coincidence threshold and the three 1e-6 thresholds of nusselt_analog / "
+        "_poly_estimation_Lagrange are inputs of the model; the harness passes the literals of /repo and re-draws "
+        "inputs within 1e-9 of a threshold, with a grid-count argument within 1e-9 of a half-integer (round), with "
+        "an undecided np.sign argument or with a normal within 1e-9 of the poles of _rotation_matrix (counted as "
+        "nus_redrawn_*)",
+        "triangular source patches are not sampled with nsamples=1 (/repo's _surf_sample_regulargrid then returns no "
+        "point and raises IndexError; universal_form_factor always uses nsamples=64)",
         "visibility (the pair list) is an input here; the visibility kernel is tied in C07",
     ]
 
 
 def dispatch(job):
     kind, spec = job
-    fn = room_case if kind == "room" else canonical_case if kind == "canon" else pair_case
+    fn = {"room": room_case, "canon": canonical_case, "nusselt": nusselt_case}.get(kind, pair_case)
     try:
         return fn(spec)
     except Exception as e:      # /repo's kernels raised on a valid input: the property cannot hold there
         import traceback
-        tag = dict(spec, room=(kind == "room"), canonical=(kind == "canon"), pair=(kind == "pair"))
+        tag = dict(spec, room=(kind == "room"), canonical=(kind == "canon"), pair=(kind == "pair"),
+                   nusselt=(kind == "nusselt"))
         return {"evaluations": 1, "mismatches": [], "nontrivial": [], "dist": {"impl_exception": 1},
                 "prop_failures": [dict(test="exception", case=tag, trace=traceback.format_exc()[-1500:],
                                        what="evaluating the form factors raised %r" % (e,))]}
@@ -507,6 +854,8 @@ def replay(res, payload):
             res.absorb(room_case(dict(seed=case["seed"], idx=case["idx"], max_patches=case.get("max_patches", 40))))
         elif case.get("canonical"):
             res.absorb(canonical_case(dict(seed=case["seed"])))
+        elif case.get("nusselt"):
+            res.absorb(nusselt_case(dict(seed=case["seed"], idx=case["idx"], kind=case["kind"])))
         else:
             res.absorb(pair_case(dict(seed=case["seed"], idx=case["idx"], kind=case["kind"])))
     res.not_carried = NOT_CARRIED
